@@ -122,7 +122,7 @@ def wireLine (fs : List String) : Option String :=
   | ["fev", cl, h] =>
     match parseBit cl, hexOr h with
     | some cl, some b =>
-      match Wire.streamEvents cl Wire.noExt (b.length + 1) none b with
+      match Wire.streamEventsU cl Wire.noExt (b.length + 1) none [] b with
       | none => some "fail"
       | some evs => some (if evs.isEmpty then "-" else " ".intercalate (evs.map showEv))
     | _, _ => none
